@@ -305,7 +305,9 @@ def _race(text, budget_s):
                     out = (p.stdout.read() or '').strip().splitlines()
                     answers[k] = out[0].strip() if out else 'timeout'
                     del procs[k]
-                    if answers[k] in ('sat', 'unsat'):
+                    # z3's sequence solver can answer 'sat' with an unsound model; without the model to
+                    # re-check, only cvc5's 'sat' is taken as definitive (any back end's 'unsat' is)
+                    if answers[k] == 'unsat' or (answers[k] == 'sat' and k.startswith('cvc5')):
                         return k, answers[k], answers
             time.sleep(0.02)
         return None, 'unknown', answers
@@ -512,9 +514,22 @@ def _norm_native(v):
     return v
 
 
+def _canon(v):
+    if isinstance(v, (list, tuple)):
+        return [_canon(x) for x in v]
+    if isinstance(v, dict):
+        return {k: _canon(x) for k, x in v.items()}
+    return v
+
+
 def engine_to_native(ip, v, heap=None):
     heap = heap if heap is not None else ip.st.heap
     if isinstance(v, SV):
+        if v.kind[0] == 'rec':
+            rt = v.kind[1]
+            return ('obj', rt.cls.__name__, {k: engine_to_native(ip, SV(simp(rt.acc[k](v.e)), kk), heap) for k, kk in sorted(rt.fields.items())})
+        if v.kind[0] == 'seq':
+            return tuple(_seq_items_native(ip, v, heap))
         ok, cv = concrete_of(v)
         if not ok:
             raise Unsupported("engine value not concrete in cross-check: %r" % (v,))
@@ -543,6 +558,14 @@ def engine_to_native(ip, v, heap=None):
     if isinstance(v, list):
         return [engine_to_native(ip, x, heap) for x in v]
     return _norm_native(v)
+
+
+def _seq_items_native(ip, s, heap):
+    e = simp(s.e)
+    n = simp(z3.Length(e))
+    if not z3.is_int_value(n):
+        raise Unsupported("symbolic sequence in cross-check")
+    return [engine_to_native(ip, SV(simp(e[i]), s.kind[1]), heap) for i in range(n.as_long())]
 
 
 def _seq_items(s):
@@ -618,7 +641,7 @@ def crosscheck(c, f, n, seed):
             continue
         eng = box['r']
         done += 1
-        if eng != nat:
+        if _canon(eng) != _canon(nat):
             mismatches.append({'inputs': repr({k: _norm_native(v) for k, v in nargs.items()})[:500], 'native': repr(nat)[:500], 'engine': repr(eng)[:500]})
         elif len(samples) < 3:
             samples.append({'inputs': repr({k: _norm_native(v) for k, v in nargs.items()})[:200], 'outcome': repr(nat[:2])[:200]})
